@@ -13,8 +13,6 @@ import (
 	"github.com/lyraproj/pcore/pcore"
 	"github.com/lyraproj/pcore/px"
 	"github.com/lyraproj/pcore/types"
-
-	"verifharness/lat"
 )
 
 // classOf maps a recovered panic value to a small class.
@@ -197,7 +195,7 @@ func handle(r Req) (o Obs) {
 		}
 		roundTripValue(types.WrapFloat(math.Float64frombits(b)), &o)
 	case "V": // a literal value from a recipe
-		var vs lat.VSpec
+		var vs VR
 		if err := json.Unmarshal([]byte(r.In), &vs); err != nil {
 			panic(err)
 		}
@@ -208,6 +206,7 @@ func handle(r Req) (o Obs) {
 			o.Msg = m
 			return
 		}
+		heapObs(v, o.Aux)
 		roundTripValue(v, &o)
 	case "T": // a type from a recipe
 		var ts Recipe
@@ -215,14 +214,48 @@ func handle(r Req) (o Obs) {
 			panic(err)
 		}
 		var t px.Type
-		c, m := guard(func() { t = ts.Build() })
+		c, m := guard(func() { t = ts.BuildVia() })
 		if c != "ok" {
 			// the constructor rejects the recipe (e.g. min > max): not a type
 			o.Class = "nobuild"
 			o.Msg = m
 			return
 		}
+		switch ts.Via {
+		case "parsed": // the type the parser makes of the text of the constructed one (second generation)
+			var t2 px.Type
+			c, m = guard(func() { pcore.Do(func(ctx px.Context) { t2 = ctx.ParseType(t.String()) }) })
+			if c != "ok" {
+				o.Class = "nobuild"
+				o.Msg = m
+				return
+			}
+			t = t2
+		}
 		roundTripType(t, &o)
+	case "P": // a type given by its text: what the parser and the creators make of it
+		createObs(r.In, o.Aux)
+		t, c, m := parseTypeText(r.In)
+		if c != "ok" {
+			o.Class = "nobuild"
+			o.Aux["buildclass"] = c
+			o.Msg = m
+			return
+		}
+		roundTripType(t, &o)
+	case "Q": // a literal value given by its text: what the parser and the resolver make of it
+		var v px.Value
+		c, m := guard(func() {
+			pcore.Do(func(ctx px.Context) { v = types.ResolveDeferred(ctx, types.Parse(r.In), px.EmptyMap) })
+		})
+		if c != "ok" {
+			o.Class = "nobuild"
+			o.Aux["buildclass"] = c
+			o.Msg = m
+			return
+		}
+		heapObs(v, o.Aux)
+		roundTripValue(v, &o)
 	case "L": // the lexer alone on a text: first token; and the parser on its tokens
 		firstToken(r.In, o.Aux)
 		parseObs(r.In, o.Aux)
